@@ -1,6 +1,6 @@
 #!/bin/bash
 # usage: seed_verify.sh <id> <k> : confirm a seeded change myself on a scratch worktree of /repo HEAD
-id=$1; k=$2; out=/tmp/seed/$id/out/$k
+id=$1; k=$2; out=${SEED_BASE:-/tmp/seed}/$id/out/$k
 wt=$(mktemp -d /tmp/sv_${id}_${k}_XXXX)/r
 git -C /repo worktree add -q --detach $wt HEAD || exit 9
 cd $wt
